@@ -157,6 +157,10 @@ def oracle(case) -> Info:
         elif how == "highbit":  # an 8-bit character somewhere in the identification line (never well-formed: the line is ASCII)
             i = 1 + mut[3] % (len(line) - 1)
             line = line[:i] + bytes([line[i] | 0x80]) + line[i + 1 :]
+        elif how == "class-boundary-char":  # a character adjacent to the allowed class at one of the structural positions
+            pos = 1 + mut[3] % 4  # manufacturer letters 1..3, baud digit 4
+            repl = b"@[`{/:"[(mut[3] // 4) % 6]
+            line = line[:pos] + bytes([repl]) + line[pos + 1 :]
         elif how == "trailing-8bit-space":
             line = line + bytes([0x85 if mut[3] % 2 else 0xA0])
         raw = bytearray(line + b"\r\n" + bytes(raw[lf + 1 :]))
@@ -209,7 +213,7 @@ def case_st(draw):
     elif kind == "checksum":
         mut = ("checksum", draw(st.sampled_from(["zero", "zero", "plus1", "minus1", "swapped", "drawn", "true"])), draw(st.integers(0, 0xFFFF)), draw(st.sampled_from(["upper", "lower", "mixed"])))
     elif kind == "ident":
-        mut = ("ident", draw(st.sampled_from(["lower", "nobaud", "long", "ctrl", "digitman", "highbit", "highbit", "trailing-8bit-space"])), draw(st.booleans()), draw(st.integers(0, 63)))
+        mut = ("ident", draw(st.sampled_from(["lower", "nobaud", "long", "ctrl", "digitman", "highbit", "highbit", "trailing-8bit-space", "class-boundary-char", "class-boundary-char"])), draw(st.booleans()), draw(st.integers(0, 63)))
     else:
         mut = (kind,)
     return (base, mut, draw(GH.cuts_st()), draw(st.sampled_from(HISTORIES)))
@@ -224,7 +228,7 @@ def build() -> Check:
             "readouts constructed to have true CRC 0x0000; then one mutation: none | any single bit flipped | checksum field replaced "
             "(0000, true+-1, octets swapped, drawn value, true value; upper/lower/mixed case) | checksum removed | identification line "
             "damaged (lower-case letters, missing baud digit, >16 id chars, control char, digit in manufacturer id, bit 7 set on any "
-            "character, trailing 0x85/0xA0; checksum recomputed or not). Each is delivered directly (DataReadout(bytes)) and through a ModeDReader with a drawn splitting and a drawn reader history (fresh, after a valid readout, after an abandoned >8191-byte readout, after an over-long line, after an invalid readout, after stray identification lines). Non-trivial = the "
+            "character, trailing 0x85/0xA0, a character adjacent to the allowed class (@ [ ` { / :) in the manufacturer id or baud position; checksum recomputed or not). Each is delivered directly (DataReadout(bytes)) and through a ModeDReader with a drawn splitting and a drawn reader history (fresh, after a valid readout, after an abandoned >8191-byte readout, after an over-long line, after an invalid readout, after stray identification lines). Non-trivial = the "
             "mutated readout carries a syntactic 4-hex checksum that differs from the true CRC, or it is untouched, and at least one object "
             "was judged. The 0000-on-nonzero-CRC class is counted separately (checksum-wrong-0000). Distinct = case hash."
         ),
